@@ -398,7 +398,10 @@ func (d *driver) valsPart(name string, n int, tokAlpha []string, flagsList []str
 			for _, tr := range triesList {
 				for _, s := range seeds[:2] {
 					for _, id := range []uint64{1, ^uint64(0)} {
-						for _, ch := range chains {
+						for ci, ch := range chains {
+							if ci > 0 && (s != seeds[0] || id != 1) {
+								continue // the second chain id is combined with one (seed, id) pair only
+							}
 							c := Case{Kind: "vals", Tokens: tv, Flags: fl, Cnt: ask, Tries: tr, Seed: s, ID: id, ChainID: ch}
 							res := evalValsOn(e, ctx, el, c)
 							d.record(c, res)
@@ -422,7 +425,7 @@ func (d *driver) runVals(quick bool, n int) {
 	// token alphabet: two values per consensus-power class 0 and 1 (ties in the power index are broken by
 	// address), one mid value and the huge ones
 	if quick {
-		d.valsPart("vals:n=4", 4, []string{"1", "3", "1000000", "1500000", tok63}, flagVectors(valFlags, 4), []int{1, 3}, chains)
+		d.valsPart("vals:n=4", 4, []string{"3", "1000000", "1500000", tok63}, flagVectors(valFlags, 4), []int{1, 3}, chains)
 	} else {
 		d.valsPart("vals:n=4", 4, []string{"1", "3", "1000000", "1500000", "99999999", tok62, tok63}, flagVectors(valFlags, 4), []int{1, 2, 3, 10}, chains)
 		d.valsPart("vals:n=5", 5, []string{"1", "1000000", "1500000", tok63}, flagVectors(valFlags, 5), []int{1, 3}, chains[:1])
